@@ -23,7 +23,7 @@ from typing import Any, Dict, List, Optional, Set, Tuple
 from ..absint import Evaluator, Const, Sym, Obj, Digest, TOP, NOT_HANDLED
 from ..cfg import cfg_of
 from ..model import unparse, stmt_key, Func, AnchorError, walk_no_nested
-from .common import Ctx, dominated, done_nodes, raises_with_code
+from .common import Ctx, dominated, done_nodes, raises_with_code, pass_outcomes, ancestors
 
 PROP = "C05"
 INT_CODES = {"b": (-2**7, 2**7), "B": (0, 2**8), "h": (-2**15, 2**15), "H": (0, 2**16), "i": (-2**31, 2**31), "I": (0, 2**32),
@@ -107,7 +107,15 @@ def all_branches(ctx: Ctx) -> List[Tuple[List[str], ast.If, Func]]:
 
 def branches(h: Func) -> List[Tuple[List[str], ast.If]]:
     out = []
-    for st in h.node.body:
+    from ..inline import InlineBlock
+
+    def flat(stmts):
+        for st_ in stmts:
+            if isinstance(st_, InlineBlock):
+                yield from flat(st_.body)  # the body of an expanded helper stands where its call was
+            else:
+                yield st_
+    for st in flat(h.node.body):
         if isinstance(st, ast.If):
             names: List[str] = []
             for n in ast.walk(st.test):
@@ -322,12 +330,14 @@ def run(ctx: Ctx) -> None:
 
     # ---- R3 / R6 ----------------------------------------------------------------------------
     n3 = 0
-    len_checkers = [nf for nf in fam if raises_with_code(nf, "SEQUENCE_TOO_LONG")]
     dispatchers = []
     for _n, _b, bf in brs:
         if bf not in dispatchers:
             dispatchers.append(bf)
-    if not len_checkers:
+    # the size guard: a helper of the family that raises the coded error, or the same test written (expanded) in the branches
+    len_checkers = [nf for nf in fam if raises_with_code(nf, "SEQUENCE_TOO_LONG") and nf not in dispatchers]
+    inline_guards = [(nf, r) for nf in dispatchers for r in raises_with_code(nf, "SEQUENCE_TOO_LONG")]
+    if not len_checkers and not inline_guards:
         rep.bad("C05.R6", outer.qname, "a size guard raising SEQUENCE_TOO_LONG exists", outer.loc(), ["no function of the value hasher raises DDSException(..., SEQUENCE_TOO_LONG)"], "no-guard",
                 what="no size guard with a coded error")
     # the size limit the guard compares with is a validated option value
@@ -358,7 +368,7 @@ def run(ctx: Ctx) -> None:
     rep.rule("C05.R7", "no type error (mypy: arg-type / operator / call-arg / index / union-attr) in the statements that build and raise the coded "
                        "size error, nor in the nested helpers they call")
     import re as _re
-    for g in len_checkers:
+    for g in len_checkers + [nf for nf in dispatchers if raises_with_code(nf, "SEQUENCE_TOO_LONG")]:
         for r in raises_with_code(g, "SEQUENCE_TOO_LONG"):
             region = [(g, r.lineno, getattr(r, "end_lineno", r.lineno))]
             for c in ast.walk(r):
@@ -430,10 +440,20 @@ def run(ctx: Ctx) -> None:
         guards = [n for n in ast.walk(br) if fam_call(ctx, h, n) in len_checkers and isinstance(n, ast.Call)]
         iters = comps + [n for n in ast.walk(br) if fam_call(ctx, h, n) is not None and n not in guards]
         desc6 = f"branch {label}: the length check precedes the iteration"
-        if not guards:
+        inl = [r for (nf, r) in inline_guards if nf is h and any(r is x for x in ast.walk(br))]
+        if not guards and not inl:
             rep.bad("C05.R6", h.qname, desc6, h.loc(br), ["no call of the size guard in this branch: a huge container is walked entirely"], f"guard:{label}", what=f"no size guard in the {label} branch")
         else:
             doms = [d for g in guards for d in done_nodes(cfg, g)]
+            for r in inl:
+                doms += pass_outcomes(cfg, h.module, r)[0]
+            inl_nodes = set()
+            for r in inl:
+                for a_ in ancestors(h.module, r):
+                    if isinstance(a_, ast.If):  # the guard itself: its test and the statements that build and raise the error
+                        inl_nodes |= {id(x) for x in ast.walk(a_.test)} | {id(x) for b_ in a_.body for x in ast.walk(b_)}
+                        break
+            iters = [it for it in iters if id(it) not in inl_nodes]
             bad = None
             for it in iters:
                 w = dominated(ctx, h, it, doms)
@@ -441,7 +461,7 @@ def run(ctx: Ctx) -> None:
                     bad = (it, w)
                     break
             if bad is None:
-                rep.ok("C05.R6", h.qname, desc6, h.loc(guards[0]))
+                rep.ok("C05.R6", h.qname, desc6, h.loc((guards + inl)[0]))
             else:
                 rep.bad("C05.R6", h.qname, desc6, h.loc(bad[0]), bad[1], f"guard-order:{label}", what=f"the {label} branch iterates before checking the length")
     for nf in fam:
